@@ -670,7 +670,32 @@ def fnmatch_decisions(h):
                         dwhen.append((lp, pd, td))
         dot_rows.append((fn, dwhen))
 
+    # ast/parse.rs: the characters each parsing function treats as special (`PatternChar::Normal('x')` patterns,
+    # also `'a' | 'b'` alternatives and slices of them), per function, sorted
+    pr = _no_tests(_strip_comments(h.read("yash-fnmatch/src/ast/parse.rs")))
+    fn_pos = [(m.start(), m.group(1)) for m in re.finditer(r"\bfn\s+([a-z_][a-z0-9_]*)", pr)]
+    specials = {}
+    for mm in re.finditer(r"PatternChar::Normal\s*\(([^()]*)\)", pr):
+        owner = [name for pos, name in fn_pos if pos < mm.start()]
+        if not owner:
+            h.fail("PatternChar::Normal(..) outside any function in ast/parse.rs")
+        inner = mm.group(1).strip()
+        parts = [x.strip() for x in inner.split("|")]
+        for part in parts:
+            m2 = re.fullmatch(r"'((?:\\.|[^'\\]))'", part)
+            if not m2:
+                if re.fullmatch(r"[a-z_][a-z0-9_]*", part):
+                    continue            # a binding, not a special character
+                h.fail(f"shape not understood in ast/parse.rs: PatternChar::Normal({inner})")
+            specials.setdefault(owner[-1], set()).add(h.rust_char(m2.group(1)))
+    if not specials:
+        h.fail("no special characters read from ast/parse.rs")
+
     out = (
+        "/-- ast/parse.rs: the unquoted characters each function gives a meaning to, sorted by code point -/\n"
+        "def parserSpecials : List (String × List Char) := ["
+        + ", ".join(f'("{fn}", [' + ", ".join(f"Char.ofNat {ord(c)}" for c in sorted(cs)) + "])"
+                    for fn, cs in sorted(specials.items())) + "]\n\n"
         "/-- attr_fnmatch.rs `to_pattern_chars`, evaluated: (is_quoted, is_quoting) ↦ `None` / `Literal` / `Normal` -/\n"
         "def patternCharTable : List ((Bool × Bool) × String) := ["
         + ", ".join(f'(({_bool(a)}, {_bool(b)}), "{r}")' for a, b, r in rows) + "]\n\n"
